@@ -835,3 +835,8 @@ mod tests {
         assert_eq!(decoded, Some(Value::String("alice".into())));
     }
 }
+
+#[cfg(kani)]
+mod verif_kani {
+    include!(concat!(env!("REPE_VERIF_KANI"), "/registry.rs"));
+}
